@@ -99,6 +99,7 @@ class Normaliser:
         self.decided: Dict[str, bool] = {}   # path condition: key of a test's positive core (tkey) -> its value on the current path
         self._tkeys: Dict[str, tuple] = {}
         self._tk_by_id: Dict[int, tuple] = {}
+        self._key_form: Dict[str, tuple] = {}
         self._names_cache: Dict[int, tuple] = {}
         self.live_stack: List[Optional[set]] = [set()]   # names read after the block being walked returns to its caller (None: unknown, all)
         self._inval: List[str] = []          # keys dropped from `decided` because something they mention changed
@@ -197,6 +198,10 @@ class Normaliser:
             raise Unsupported("walrus")
         if isinstance(node, ast.Call) and self.depth < 3:
             f = node.func
+            if isinstance(f, ast.Name) and f.id not in bound and isinstance(env.get(f.id), ast.Name) and env[f.id].id in self.helpers and env[f.id].id not in env:
+                # a local that simply is a helper function (e.g. the parameter of an inlined procedure bound to it)
+                f = env[f.id]
+                node = ast.Call(func=f, args=node.args, keywords=node.keywords)
             helper, bself = None, None
             if isinstance(f, ast.Name) and f.id in self.helpers and f.id not in bound and f.id not in env:
                 helper = self.helpers[f.id]
@@ -576,6 +581,13 @@ class Normaliser:
             f = self.ex(n, benv)
             if isinstance(f, tuple) and f and f[0] == "call" and isinstance(f[1], tuple) and f[1][-1] in NUMERIC_FUNCS:
                 numeric_hint[0] = True
+            # an operand that turned out to be arithmetic itself (the value of an inlined helper) takes part in the flattening
+            if isinstance(f, tuple) and len(f) == 4 and f[0] == "prod" and isinstance(f[2], tuple):
+                numeric_hint[0] = True
+                return [(f[1], dict(f[2]), f[3])]
+            if isinstance(f, tuple) and len(f) == 3 and f[0] == "sum" and f[2] is True:
+                numeric_hint[0] = True
+                return [(c_, dict(k_), fl_) for c_, k_, fl_ in f[1]]
             return [(F(1), {f: F(1)}, False)]
 
         return self.sumform(lift(node), numeric_hint[0])
@@ -662,8 +674,25 @@ class Normaliser:
             pos, t = self.test(test, {})
             got = (repr(t), pos)
             self._tkeys[d] = got
+            self._key_form[got[0]] = t
         self._tk_by_id[id(test)] = (test, got)
         return got
+
+    def known(self, key):
+        """truth value of the test with this key on the current path (None: open): decided itself, or excluded by a decided comparison of the same two
+        operands (a < b excludes b < a and a == b; a == b excludes a < b and b < a)"""
+        v = self.decided.get(key)
+        if v is not None or not self.decided:
+            return v
+        t = self._key_form.get(key)
+        if isinstance(t, tuple) and len(t) == 4 and t[0] == "cmp" and t[1] in ("Lt", "Eq"):
+            a, b = t[2], t[3]
+            eq = ("cmp", "Eq", a, b) if repr(a) <= repr(b) else ("cmp", "Eq", b, a)
+            others = [("cmp", "Lt", b, a), eq] if t[1] == "Lt" else [("cmp", "Lt", a, b), ("cmp", "Lt", b, a)]
+            for o in others:
+                if self.decided.get(repr(o)) is True:
+                    return False
+        return None
 
     def choose(self, node, decided, bound=frozenset()):
         """copy of the expression in which every conditional expression on a decided test (one that does not depend on a name bound by a comprehension
@@ -672,8 +701,9 @@ class Normaliser:
             return node
         if isinstance(node, ast.IfExp) and not (bound and (_bound_names(node.test) & bound)):
             k, p = self.tkey(node.test)
-            if k in decided:
-                return self.choose(node.body if (decided[k] == p) else node.orelse, decided, bound)
+            kv = self.known(k)
+            if kv is not None:
+                return self.choose(node.body if (kv == p) else node.orelse, decided, bound)
         if isinstance(node, ast.Lambda):
             a = node.args
             b2 = bound | {p_.arg for p_ in a.posonlyargs + a.args + a.kwonlyargs} | ({a.vararg.arg} if a.vararg else set()) | ({a.kwarg.arg} if a.kwarg else set())
@@ -857,6 +887,10 @@ class Normaliser:
                 body = arm[0][2] if inner_pos else arm[0][3]
                 pos, form = _bool_form("And", [(outer_pos, t), (inner_pos, arm[0][1])])
                 return self.mk_if(form, body, other) if pos else self.mk_if(form, other, body)
+        # a chain of mutually exclusive tests is ordered by the tests:  if a: X elif b: Y else: Z  ==  if b: Y elif a: X else: Z  when a and b exclude each other
+        if len(eb) == 1 and eb[0][0] == "if" and _exclusive(t, eb[0][1]) and repr(eb[0][1]) < repr(t):
+            t2, y, z = eb[0][1], eb[0][2], eb[0][3]
+            return self.mk_if(t2, y, self.mk_if(t, ea, z))
         # canonical order of independent tests: `if a: (if b: X else: Y) else: (if b: Z else: W)` with b before a is rotated
         if len(ea) == 1 and len(eb) == 1 and ea[0][0] == "if" and eb[0][0] == "if" and ea[0][1] == eb[0][1] and repr(ea[0][1]) < repr(t):
             t2 = ea[0][1]
@@ -1305,9 +1339,9 @@ class Normaliser:
         pos, t = self.test(test, {})
         a_st, b_st = (body, orelse) if pos else (orelse, body)
         tkey, kpos = self.tkey(test)
-        if tkey in self.decided:
+        if self.known(tkey) is not None:
             # already decided on this path: only one arm exists
-            arm = a_st if self.decided[tkey] else b_st
+            arm = a_st if self.known(tkey) else b_st
             if self.may_leave(arm):
                 e, _ = self.block(arm, env, (rest,) + tuple(cont))
                 return e, env, True
@@ -2279,7 +2313,7 @@ def _as_value(eff):
 
 
 def module_consts(tree) -> dict:
-    """module-level names bound exactly once to a number literal"""
+    """module-level names bound exactly once to a number literal or to a tuple of number / string literals"""
     counts, vals = {}, {}
     for n in ast.walk(tree):
         if isinstance(n, ast.Name) and isinstance(n.ctx, ast.Store):
@@ -2293,6 +2327,9 @@ def module_consts(tree) -> dict:
                 v = v.operand
             if isinstance(v, ast.Constant) and isinstance(v.value, (int, float)) and not isinstance(v.value, bool) and counts.get(s.targets[0].id) == 1:
                 vals[s.targets[0].id] = s.value
+            elif counts.get(s.targets[0].id) == 1 and isinstance(s.value, ast.Tuple) and s.value.elts and \
+                    all(isinstance(e, ast.Constant) and isinstance(e.value, (int, float, str)) and not isinstance(e.value, bool) for e in s.value.elts):
+                vals[s.targets[0].id] = s.value   # an immutable tuple of literals
     return vals
 
 
@@ -2306,6 +2343,30 @@ def normal_form(fn, consts=None, helpers=None, methods=None):
     eff, _ = nz.block(_body(fn), {}, ())
     is_gen = any(isinstance(x, (ast.Yield, ast.YieldFrom)) for x in ast.walk(fn))
     return (sig, _renumber(_prune_evals(_drop_dead_binds(tuple(strip_tail(eff, "return")) if not is_gen else tuple(eff)))))
+
+
+def _is_const_form(x) -> bool:
+    return isinstance(x, tuple) and bool(x) and (x[0] == "k" or (x[0] == "prod" and len(x) == 4 and x[2] == ()))
+
+
+def _exclusive(t1, t2) -> bool:
+    """can the two (positive) test forms never hold together?  comparisons of the same two operands (a < b, b < a, a == b), equality of one operand with
+    two different constants"""
+    if not (isinstance(t1, tuple) and isinstance(t2, tuple) and len(t1) == 4 and len(t2) == 4 and t1[0] == "cmp" and t2[0] == "cmp"):
+        return False
+    o1, o2 = t1[1], t2[1]
+    if o1 not in ("Lt", "Eq") or o2 not in ("Lt", "Eq") or t1 == t2:
+        return False
+    if {t1[2], t1[3]} == {t2[2], t2[3]}:
+        if o1 == "Lt" and o2 == "Lt":
+            return t1[2] == t2[3] and t1[3] == t2[2]
+        return not (o1 == "Eq" and o2 == "Eq")
+    if o1 == "Eq" and o2 == "Eq":
+        for x1, k1 in ((t1[2], t1[3]), (t1[3], t1[2])):
+            for x2, k2 in ((t2[2], t2[3]), (t2[3], t2[2])):
+                if x1 == x2 and _is_const_form(k1) and _is_const_form(k2) and k1 != k2 and k1[0] == k2[0]:
+                    return True
+    return False
 
 
 def _bool_form(op, parts):
